@@ -120,6 +120,8 @@ def probe_leg(ck, n):
 def run(ck):
   quick = ck.quick
   ck.mc("DSTerms_MC", "DSTerms_MC" if quick else "DSTerms_MCT", required_actions=["Step"])
+  # the term machine and the control skeleton (C03/C04's model) in lockstep tell the same story
+  ck.mc("DSRefine_MC", "DSRefine_MC", required_actions=["Next"])
   beh = ck.gen("DSTerms_Gen", "DSTerms_Gen", simulate=(120 if quick else 1500), depth=6)
   ck.sample({"spec_behaviour": {"cfg": beh[0]["cfg"], "step1": beh[0]["steps"][0]}})
   replay(ck, beh, "DSTerms_Gen replay")
